@@ -2,6 +2,8 @@ import OmplModel.Proofs.Heap
 import OmplModel.Proofs.HeapHole
 import OmplModel.Proofs.HeapPos
 import OmplModel.Proofs.HeapAudit
+import OmplModel.Proofs.ReverseQueue
+import OmplModel.Proofs.ForwardQueueRule
 /-!
 # C11 — the updatable heap always pops in order, whatever was removed or updated
 
@@ -335,5 +337,121 @@ example : ∀ x y : Nat, ltNat (x / 10) (y / 10) = (fun a b : Nat => decide (a /
 /-- non-vacuity of `inplace_change_then_update_ok`: handle 2 is live in `h123` -/
 example : ∃ e ∈ h123.arr.toList, e.h = 2 := by
   rw [h123_arr]; exact ⟨⟨2, 3⟩, by simp [a123], rfl⟩
+
+/-! ## One user modelled end to end: `eitstar::ReverseQueue`
+
+`Model/ReverseQueue.lean` writes `insertOrUpdate` / `updateIfExists` / `pop` / `clear` / `rebuild` / `removeOutgoingEdges` /
+`setCostQueueOrder` as coded over the heap model, with the stored keys as COPIES of `keyFn world source target` and the
+per-vertex handle lookups as vectors (emplace_back / swap-pop / clear).  The real class is driven in lock-step
+(`harness/heapusers.cpp` mode `rq` vs `drv_revqueue`: stored 4-keys in array order and lookups in vector order after every op).
+`world` steps change the vertex/state fields arbitrarily without telling the queue. -/
+section ReverseQueue
+open OmplModel.RevQ
+variable {K W : Type}
+
+/-- states reachable from the empty queue in world `w0` -/
+def rqReach (ltc lte : K → K → Bool) (keyFn : W → Nat → Nat → K) (w0 : W) (costOrd : Bool) (ops : List (ROp W)) : Sys K W :=
+  (⟨w0, { costOrd := costOrd }⟩ : Sys K W).run ltc lte keyFn ops
+
+/-- **after every public operation of the reverse queue — interleaved with arbitrary changes of the fields the keys are
+computed from — the heap invariant holds w.r.t. the queue's CURRENT order and the CURRENT stored keys**, handles are
+well-formed, the Bool audit passes, the top is a minimum and the queue pops as a sorted permutation.  (Reason, visible in the
+proof: the only place that overwrites a stored key, `updateIfExists`, goes through `Heap.setKey` = poke + `update(handle)`.) -/
+theorem reverseQueue_heap_consistent {ltc lte : K → K → Bool} (hc : SWO ltc) (he : SWO lte) (keyFn : W → Nat → Nat → K)
+    (w0 : W) (b : Bool) (ops : List (ROp W)) :
+    let q := (rqReach ltc lte keyFn w0 b ops).q
+    HeapInv (q.lt ltc lte) q.heap.arr ∧ Wf q.heap ∧ heapOrdered (q.lt ltc lte) q.heap.arr = true ∧
+      topIsMin (q.lt ltc lte) q.heap.arr = true ∧
+      (popAll (q.lt ltc lte) q.heap.arr).Perm q.heap.arr.toList ∧ Sorted (q.lt ltc lte) (popAll (q.lt ltc lte) q.heap.arr) := by
+  intro q
+  have G : Good ltc lte q := run_good hc he keyFn ops _ ⟨empty_inv _, ⟨by simp, by simp⟩⟩
+  have hs := ltOf_swo hc he q.costOrd
+  have hA := (heapOrdered_iff_inv (q.lt ltc lte) q.heap.arr).mpr G.inv
+  have hp := audit_pops_sorted hs q.heap.arr hA
+  exact ⟨G.inv, G.wf, hA, (audit_top_is_min hs _ hA).1, hp.1, hp.2.1⟩
+
+/-- **`insertOrUpdate(s,t)` makes the stored key current**: afterwards the queue holds an element for that edge whose key is
+`keyFn` of the fields as they are NOW, whether the edge was inserted or found through the source's lookup and updated in place;
+all other elements are untouched (`insertOrUpdate_spec`). -/
+theorem reverseQueue_insertOrUpdate_fresh {ltc lte : K → K → Bool} (hc : SWO ltc) (he : SWO lte) (keyFn : W → Nat → Nat → K)
+    (w0 : W) (b : Bool) (ops : List (ROp W)) (s t : Nat) :
+    let σ := rqReach ltc lte keyFn w0 b ops
+    ∃ e ∈ (σ.q.insertOrUpdate ltc lte keyFn σ.w s t).heap.arr.toList, e.key.k = keyFn σ.w s t ∧ e.key.s = s ∧ e.key.t = t := by
+  intro σ
+  have G : Good ltc lte σ.q := run_good hc he keyFn ops _ ⟨empty_inv _, ⟨by simp, by simp⟩⟩
+  exact insertOrUpdate_fresh ltc lte keyFn σ.w σ.q s t G.wf
+
+/-- **`rebuild()` makes every stored key current.** -/
+theorem reverseQueue_rebuild_all_fresh {ltc lte : K → K → Bool} (hc : SWO ltc) (he : SWO lte) (keyFn : W → Nat → Nat → K)
+    (w : W) (q : RQ K) : ∀ e ∈ (q.rebuild ltc lte keyFn w).heap.arr.toList, e.key.k = keyFn w e.key.s e.key.t :=
+  rebuild_allFresh hc he keyFn w q
+
+/-- the two orders of the code (`getCostComparisonOperator`: key0,key1,key2; `getEffortComparisonOperator`: key2,key3,key0,key1)
+are strict weak orders, so `reverseQueue_heap_consistent` applies to the instance the driver runs in lock-step with the real class
+(`keyOf`: the four `compute…` functions over the State fields) -/
+theorem reverseQueue_as_coded_consistent (w0 : World) (b : Bool) (ops : List (ROp World)) :
+    let q := (rqReach ltCost ltEffort keyOf w0 b ops).q
+    heapOrdered (q.lt ltCost ltEffort) q.heap.arr = true ∧ topIsMin (q.lt ltCost ltEffort) q.heap.arr = true :=
+  let h := reverseQueue_heap_consistent ltCost_swo ltEffort_swo keyOf w0 b ops
+  ⟨h.2.2.1, h.2.2.2.1⟩
+
+/-- non-vacuity: the premises are satisfiable by the code's own orders -/
+example : SWO ltCost ∧ SWO ltEffort := ⟨ltCost_swo, ltEffort_swo⟩
+
+/-! ### the reviewers' change B inside this model (kernel-checked witness)
+
+`RQ.insertOrUpdateB` is `updateIfExists` with the "optimisation" of change B: re-sift only when key0/key1/key2 changed.  In an
+effort-ordered queue two edges tie on key2 = 15; the inadmissible effort (key3) of the second drops from 111 to 11 and the edge is
+re-inserted: with B the stored key3 is overwritten but the element stays below the first edge — the top is not a minimum; the code
+as it is puts it on top. -/
+def k4 (a b c d : Nat) : K4 := ⟨a, b, c, d⟩
+def same3 (o n : K4) : Bool := o.k0 == n.k0 && o.k1 == n.k1 && o.k2 == n.k2
+def qB : RQ K4 :=
+  { heap := { arr := #[⟨0, ⟨k4 30 10 15 110, 0, 1⟩⟩, ⟨1, ⟨k4 30 10 15 111, 0, 2⟩⟩], next := 2 },
+    lk := #[[0, 1], [], []], costOrd := false }
+def kfOld : Unit → Nat → Nat → K4 := fun _ _ t => k4 30 10 15 (109 + t)
+def kfNew : Unit → Nat → Nat → K4 := fun _ _ _ => k4 30 10 15 11
+
+/-- `qB` is what the real sequence of public calls produces -/
+theorem qB_reachable :
+    (rqReach ltCost ltEffort kfOld () false [.addState, .addState, .addState, .ins 0 1, .ins 0 2]).q.heap.arr = qB.heap.arr ∧
+    (rqReach ltCost ltEffort kfOld () false [.addState, .addState, .addState, .ins 0 1, .ins 0 2]).q.lk = qB.lk := by
+  simp [rqReach, Sys.run, Sys.step, RQ.addState, RQ.insertOrUpdate, findHandle, Heap.insert, siftUp, RQ.lt, ltOf, ltEffort,
+    kfOld, k4, qB, targetOf, findIdx, List.findIdx?_cons]
+
+theorem qB_findHandle : findHandle qB.heap.arr (qB.lk.getD 0 []) 2 = some 1 := by
+  simp [findHandle, qB, targetOf, findIdx, List.findIdx?_cons, List.find?]
+
+theorem reverseQueue_skip_update_on_key3_breaks :
+    topIsMin (qB.lt ltCost ltEffort) (qB.insertOrUpdateB ltCost ltEffort same3 kfNew () 0 2).heap.arr = false ∧
+    (qB.insertOrUpdate ltCost ltEffort kfNew () 0 2).heap.arr.toList.map (fun e => (e.key.s, e.key.t, e.key.k.k3)) =
+      [(0, 2, 11), (0, 1, 110)] := by
+  constructor
+  · unfold RQ.insertOrUpdateB
+    rw [qB_findHandle]
+    simp [qB, findIdx, List.findIdx?_cons, same3, kfNew, k4, Heap.poke, pokeAll, topIsMin, RQ.lt, ltOf, ltEffort]
+  · unfold RQ.insertOrUpdate
+    rw [qB_findHandle]
+    simp [qB, Heap.setKey, findIdx, List.findIdx?_cons, kfNew, k4, siftUp, siftDown, RQ.lt, ltOf, ltEffort]
+
+end ReverseQueue
+
+/-! ## `eitstar::ForwardQueue` (not a BinaryHeap): the front-selection rule as coded
+
+`Model/ForwardQueueRule.lean` is `getFrontIter(suboptimalityFactor)` over the container's iteration order; the check feeds every
+`peek`/`pop` of the real class (finite and infinite factors, with the front cache of `peek`) through it. -/
+
+/-- **`forwardQueue_pop_rule`**: the rule answers with a position inside the container, and for an infinite suboptimality factor
+that position holds an edge of least estimated effort. -/
+theorem forwardQueue_pop_rule (f : Option Nat) (l : List OmplModel.FwdQ.Row) (i : Nat) (h : OmplModel.FwdQ.front f l = some i) :
+    i < l.length ∧ (f = none → ∃ r, l[i]? = some r ∧ ∀ x ∈ l, r.eff ≤ x.eff) := by
+  refine ⟨OmplModel.FwdQ.front_lt_length f l i h, ?_⟩
+  intro hf
+  subst hf
+  exact OmplModel.FwdQ.front_inf_min_effort l i h
+
+/-- non-vacuity: three rows, factor 2: the least-effort row is outside the inflated best estimate, the best estimate is not
+below the inflated lower bound, so the (last) minimal-lower-bound row is selected -/
+example : OmplModel.FwdQ.front (some 2) [⟨10, 10, 5⟩, ⟨3, 30, 1⟩] = some 1 := by decide
 
 end OmplModel.Props.C11
